@@ -5,6 +5,7 @@ impl<T1: BinarySerializer> BinarySerializer for (T1,) {
         &self,
         context: &mut SerializationContext<Output>,
     ) -> crate::Result<()> {
+        context.write_u8(0);
         self.0.serialize(context)
     }
 }
